@@ -193,7 +193,17 @@ def finish(prop, tier, seed, results, wall, write_evidence=True):
         print("  failed obligation: %s [%s] %s:%s %s -- %s" % (fail["id"], fail["kind"], fail.get("file", ""),
                                                               fail.get("line", ""), fail.get("function", ""), fail["desc"][:160]))
         print("VIOLATION property=%s replay=%s%s" % (prop, path, suffix))
-    for r in infra:
+    # thorough tier: a case that ran out of time or memory (or was not started within the run's budget) was NOT EXPLORED; it is
+    # listed here and in the evidence, but it does not make the run fail (exit 0 = held on everything explored).  Every other
+    # infrastructure problem (tool error, missing function or obligation, silent vacuity guard) still exits 2, and in the quick
+    # tier resource limits do too.
+    def resource_limited(r):
+        return r.error.startswith(("timeout", "not started", "cbmc produced no result set"))
+    not_explored = [r for r in infra if tier == "thorough" and resource_limited(r)]
+    infra_hard = [r for r in infra if r not in not_explored]
+    for r in not_explored:
+        print("NOT EXPLORED (resource limit, thorough tier): job %s: %s" % (r.job.name, r.error))
+    for r in infra_hard:
         print("UNDECIDED (infrastructure): job %s: %s  [log %s]" % (r.job.name, r.error, r.log))
     if os.environ.get("VERIF_VERBOSE"):
         for r in sorted(results, key=lambda r: -r.wall):
@@ -209,7 +219,7 @@ def finish(prop, tier, seed, results, wall, write_evidence=True):
         write_evid(prop, tier, seed, results, wall, violations, known_hits, infra)
     if violations:
         return 1
-    if infra:
+    if infra_hard:
         return 2
     return 0
 
